@@ -249,8 +249,17 @@ func (fr *frame) callStatic(fn *ssa.Function, args []Val, argTypes []types.Type,
 		vc.havocked[name] = true
 		if why := panickyExternal(fn); why != "" {
 			// no contract says when this callee panics, and its package panics by design on bad operands
-			vc.safetyCheck(fmt.Sprintf("%s#safety:external-without-panic-contract(%s)", shortFn(fr.fn), name), pos,
-				"call to "+name+" ("+why+") has no contract stating when it panics", alive, "false", st)
+			// (not through safetyCheck: that would assume the condition - false - on the normal path)
+			oname := fmt.Sprintf("%s#safety:external-without-panic-contract(%s)", shortFn(fr.fn), name)
+			if c := vc.catching(); c != nil {
+				if vc.quiet == 0 {
+					pc := vc.fresh("maypanic", sortBool)
+					c.panicAt(and(alive, pc), st)
+					vc.assume(and(alive, "(not "+c.pk+")"), "(not "+pc+")")
+				}
+			} else if vc.safety {
+				vc.oblige("safety", oname, pos, "call to "+name+" ("+why+") has no contract stating when it panics", alive, "false", []string{vc.safetyTag()})
+			}
 		}
 	}
 	hv := fr.havocCall(fn.Signature, args, argTypes, st, alive, name)
